@@ -286,7 +286,8 @@ HOSTILE_ARGS = [
     {"events": "ping", "ping__count": "10000"}, {"events": "scte35", "scte35__timescale": "0"},
     {"events": "ping", "ping__duration": "-1"}, {"events": "ping,scte35", "scte35__version": "2"},
     {"ping__version": "7"}, {"events": "foo", "ping__count": "99999"}, {"leeway": "3162240001"},
-    {"leeway": "-3162240001"}, {"leeway": "3162240000"}, {"depth": "99999999999"}, {"mup": "-99999999999"},
+    {"leeway": "-3162240001"}, {"leeway": "3162240000"}, {"depth": "99999999999"}, {"depth": "5000000"}, {"depth": "5000001"}, {"depth": "-5000001"},
+    {"depth": "40000000", "timeline": "1", "start": "epoch"}, {"mup": "-99999999999"},
     {"drift": "99999999999"}, {"patch": "1"}, {"patch": "1", "timeline": "0"}, {"timeline": "0"}, {"timeline": "1"},
     {"acodec": "ec-3"}, {"acodec": "mp4"}, {"acodec": "4a"}, {"acodec": "x"}, {"acodec": ""}, {"drm": "playready"},
     {"drm": "none"}, {"drm": "all"}, {"mode": "live"}, {"mode": "odvod"}, {"mode": "bogus"}, {"time": "direct"},
